@@ -86,6 +86,10 @@ type Case struct {
 	// (fields read by JSON tag: it1.ca), "embed" / "embedptr" a struct that embeds condStruct by
 	// value / by pointer (promoted fields read by Go name: it1.Ca).
 	Items string `json:"items,omitempty"`
+	// After is the after-failure dimension: "" none, or where the failing variant of this page is
+	// rendered before the real call: "fresh" (another fresh engine), "engine" (the same engine),
+	// "template" (RenderString on the Template object of the real call).
+	After string `json:"after,omitempty"`
 	// VLists are the lists of vloop nodes: plain values (nil allowed) bound to a bare loop variable.
 	VLists map[string][]vals.V `json:"vlists,omitempty"`
 }
@@ -180,6 +184,16 @@ type embedPtrItem struct {
 
 // condText writes a logical condition ([!]name, [!]loopvar.field, [!]p<k>) in the case's form.
 func condText(cond, st string) string {
+	if kind, x, y, ok := guardCond(cond); ok {
+		switch kind {
+		case "guard-and":
+			return "!nok(" + condText(x, st) + ") && " + condText(y, st)
+		case "guard-or":
+			return "!nok(" + condText(x, st) + ") || " + condText(y, st)
+		default:
+			return "!" + condText(x, st) + " && " + condText(y, st)
+		}
+	}
 	form, items := splitStyle(st)
 	if i := strings.IndexByte(cond, '.'); i >= 0 && (items == "embed" || items == "embedptr") {
 		// promoted field of the embedded struct, by its Go name
@@ -363,6 +377,7 @@ type stats struct {
 	laterDeco        bool          // an unchosen member after the chosen one carries v-pre / v-once / v-for
 	chosenN          map[*Node]int // how often each member was the chosen one
 	onceRepeat       []*Node       // v-once members chosen more than once: C16's subject, not asserted here
+	guard            bool          // a condition of the form !nok(x) && y / !nok(x) || y / !x && y
 	forOnce          bool          // a chosen member carrying v-for and v-once
 	comps            int           // comp nodes evaluated
 	compShort        bool
@@ -386,7 +401,30 @@ func newStats() *stats {
 }
 
 // truthy evaluates a condition reference against the scope with the documented table.
+// guardCond parses the two-operand conditions over a registered function that can fail:
+// guard-and:x:y = `!nok(x) && y`, guard-or:x:y = `!nok(x) || y`, nota-and:x:y = `!x && y`
+// (nok negates a bool, so !nok(x) is x).
+func guardCond(cond string) (kind, x, y string, ok bool) {
+	parts := strings.Split(cond, ":")
+	if len(parts) != 3 || (parts[0] != "guard-and" && parts[0] != "guard-or" && parts[0] != "nota-and") {
+		return "", "", "", false
+	}
+	return parts[0], parts[1], parts[2], true
+}
+
 func (m *model) truthy(cond string, sc scope) bool {
+	if kind, x, y, ok := guardCond(cond); ok {
+		m.st.guard = true
+		bx, by := m.truthy(x, sc), m.truthy(y, sc)
+		switch kind {
+		case "guard-and":
+			return bx && by
+		case "guard-or":
+			return bx || by
+		default:
+			return !bx && by
+		}
+	}
 	neg := false
 	if strings.HasPrefix(cond, "!") {
 		neg = true
@@ -1055,3 +1093,86 @@ func (c *Case) data() map[string]any {
 	}
 	return d
 }
+
+// ---------------------------------------------------------------- after-failure dimension
+
+// staleOf is a recognisably different value of the opposite truthiness.
+func staleOf(v vals.V) vals.V {
+	if v.K == "bool" {
+		return vals.Bool(v.S != "true")
+	}
+	if t, _ := valTruthy(v); t {
+		return vals.Nil()
+	}
+	return vals.Str("STALE")
+}
+
+// staleData is the case's data with every condition value replaced by a stale one (and the list
+// item ids suffixed -STALE): what the failing variant is rendered over.
+func (c *Case) staleData() map[string]any {
+	sc := *c
+	sc.Vars = map[string]vals.V{}
+	_, st := expect(c)
+	for k, v := range c.Vars {
+		sc.Vars[k] = staleOf(v)
+		if st.guard {
+			// the same condition text fails in the failing variant: nok("ERR") returns an error
+			sc.Vars[k] = vals.Str("ERR")
+		}
+	}
+	sc.Lists = map[string][]map[string]vals.V{}
+	for name, items := range c.Lists {
+		for _, it := range items {
+			m := map[string]vals.V{}
+			for k, v := range it {
+				if k == "id" {
+					m[k] = vals.Str(v.S + "-STALE")
+				} else {
+					m[k] = staleOf(v)
+				}
+			}
+			sc.Lists[name] = append(sc.Lists[name], m)
+		}
+	}
+	sc.VLists = map[string][]vals.V{}
+	for name, items := range c.VLists {
+		for _, v := range items {
+			sc.VLists[name] = append(sc.VLists[name], staleOf(v))
+		}
+	}
+	d := sc.data()
+	d["tw"] = "STALE"
+	return d
+}
+
+// failingSource is the failing variant of the page: the page itself, preceded by a root-level
+// <template> that assigns values to the condition variable names and followed by a text run that
+// fails late, after a literal and a successful mustache. Undefined names are assigned true; in the
+// "template" variant (the failing call runs on the real call's own Template object, over the real
+// data) the defined ones are assigned a literal of the opposite truthiness; in the other variants
+// they carry their stale values through the data, so that the same condition texts see them.
+func (c *Case) failingSource() string {
+	var sb strings.Builder
+	sb.WriteString(`<template`)
+	for _, name := range globalNames {
+		v, defined := c.Vars[name]
+		switch {
+		case !defined || v.K == "missing":
+			fmt.Fprintf(&sb, ` :%s="true"`, condText(name, c.style()))
+		case c.After == "template":
+			t, _ := valTruthy(v)
+			fmt.Fprintf(&sb, ` :%s="%v"`, condText(name, c.style()), !t)
+		}
+	}
+	for k := 0; k < 12; k++ {
+		fmt.Fprintf(&sb, ` :p%d="true"`, k)
+	}
+	sb.WriteString(`></template>`)
+	sb.WriteString(c.source())
+	sb.WriteString(`<p>tail {{ tw }} {{ boom(tw) }}</p>`)
+	return sb.String()
+}
+
+// afterOK: the dimension is applied where the condition variables are plain names (they can be
+// assigned by a root-level <template :name="...">).
+func (c *Case) afterOK() bool { return c.Form == "" || c.Form == "funcname" }
